@@ -311,15 +311,17 @@ def xml_attr_eval(case):
 
 
 # ---- canonical order of keys of any kind ---------------------------------------------------------------------------------
-# keys of every kind the Python API accepts (encoded for JSON: tuples as {'t': [...]}, bytes as {'y': 'text'})
+# keys of every kind the Python API accepts (encoded for JSON: tuples as {'t': [...]}, frozensets as {'f': [...]}, bytes as {'y': 'text'})
 KEY_KINDS = [9, 10, '1a', '9', 1.5, True, None, {'t': [1]}, {'t': ['a']}, {'t': [1, 2]}, 'x', {'y': 'x'}, 'ListNode', 'None',
-             {'t': [None]}, {'t': []}, '', 0, {'t': [[1], 2]}]
+             {'t': [None]}, {'t': []}, '', 0, {'t': [[1], 2]}, {'f': [1]}, {'f': [1, 2]}, {'f': []}, {'f': ['a']}]
 
 
 def real_key(k):
     if isinstance(k, dict):
         if 't' in k:
             return tuple(real_key({'t': x}) if isinstance(x, list) else x for x in k['t'])
+        if 'f' in k:
+            return frozenset(k['f'])
         return k['y'].encode()
     return k
 
